@@ -372,7 +372,9 @@ pub fn beam_search_filtered<F, V>(
     }
 
     while let Some(current) = ctx.candidates.pop() {
-        if current.distance > ctx.worst_result_distance() {
+        // invisible candidates are not in the result set, so "farther than the worst
+        // result" only bounds the search once the result set is full
+        if ctx.results.len() >= ctx.ef_search && current.distance > ctx.worst_result_distance() {
             break;
         }
 
